@@ -93,7 +93,7 @@ def shard_fn(shard, nshards, seed, tier, exe, ninputs, npairs):
     for kind, s in big:
         add("big." + kind.split("-")[0], ["G 0 %d x%s" % (rng.choice([0, 1000, 2000000]), s.hex()), "G 1 0 x" + s.hex()], s[:40])
     cases.append(("%d.hist" % shard, ["Z"]))
-    results, crashes = core.run_script(exe, cases, tag="c04", timeout=1800)
+    results, crashes = core.run_script(exe, cases, tag="c04", timeout=1800, env=core.ambient_env(sh, shard))
     cmdmap = dict(cases)
     for cr in crashes:
         kind, frame = cr.summary()
